@@ -324,6 +324,12 @@ def generate(prop, seed, tier):
                         'batch': fr.choice([0, 0, 1, 1, 2, 3, 5, -1])}
         if scn['fault']['kind'] == 'preprocess' and not scn['chain']:
             scn['chain'] = ['cast']
+        if scn['mode'] == 'attack' and fr.random() < 0.45:
+            # a convergence step spanning several batches: the window bookkeeping is state a failed step could disturb
+            scn['step'] = fr.choice([2, 3, 5, 7, 10, 12])
+            if fr.random() < 0.7:
+                scn['rule'] = fr.randint(1, max(1, scn['step'] - 1))
+                scn['sets'][0] = max(scn['sets'][0], 2 * scn['step'] + fr.randint(0, 9))
         if scn['fault']['kind'] in ('pp_short', 'sf_extra_word'):
             # the batch is refused *inside* update() (trace length / word count differs from earlier batches): needs >= 2 batches, k >= 1
             N = scn['sets'][0] = max(scn['sets'][0], 3)
@@ -469,8 +475,26 @@ def _execute(scn, scared):
             D = model(sf(plaintext=pt))
             Hook.sf_calls = 0
             if fault:
-                bs = container.batch_size
-                nb = -(-len(samples) // bs)
+                # scout: the same analysis on the same rows over a separate fake storage, no fault: observes the batch partition run() really
+                # uses (with a convergence step it is derived, not the container's) and gives the fault-free convergence trace for calibration
+                scout_rec, st2 = Recorder(), Storage()
+                scout = recording(K, scout_rec, st2)(**analysis_kwargs(scn, sf, scn.get('step')))
+
+                def mk_cont(lo, hi, tag, st=st2):
+                    return scared.Container(make_ths(st, samples[lo:hi], {'plaintext': pt[lo:hi]}, tag), frame=np_frame(scn['frame']), preprocesses=list(pps))
+                try:
+                    scout.run(mk_cont(0, len(samples), 'scout'))
+                except Exception:
+                    return {'violation': None, 'inconclusive': True, 'digest': 'scout-failed', 'case': 'scout-failed', 'nontrivial': False, 'faults': faults,
+                            'probes': probes, 'sim_time': 0}
+                lens = [len(u[0]) for u in scout_rec.updates]
+                if not lens:
+                    return {'violation': None, 'inconclusive': True, 'digest': 'unobservable', 'case': 'unobservable', 'nontrivial': False, 'faults': faults,
+                            'probes': {'update_boundary_unobservable': 1}, 'sim_time': 0}
+                bs = lens[0]
+                nb = len(lens)
+                Hook.sf_calls = 0
+                Hook.pp_calls = 0
                 k = fault['batch'] if fault['batch'] >= 0 else nb - 1
                 k = min(k, nb - 1)
                 if fault['kind'] in ('pp_short', 'sf_extra_word'):
@@ -490,7 +514,7 @@ def _execute(scn, scared):
                     run_exc = e
                 except Exception as e:
                     run_exc = e
-                return _after_fault(scn, scared, att, rec, storage, sf, E, D, samples, pt, run_exc, faults, probes, pps, k, bs)
+                return _after_fault(scn, scared, att, rec, storage, sf, E, D, samples, pt, run_exc, faults, probes, pps, k, bs, K=K, scout=scout, mk_cont=mk_cont)
             try:
                 att.run(container)
             except Exception as e:
@@ -561,7 +585,21 @@ def _execute(scn, scared):
             'faults': faults, 'probes': probes, 'sim_time': storage.seq, 'counts': {'updates': len(lens), 'storage_fetches': sum(storage.counts.values())}}
 
 
-def _after_fault(scn, scared, att, rec, storage, sf, E, D, samples, pt, run_exc, faults, probes, pps, k, bs):
+def _manual_prefix(scn, scared, K, sf, cont, bs, upto, final=False):
+    """Model of a run() that processed the first `upto` batches: the public pieces of the run loop driven by the harness
+    (Container.batches(batch_size), process) plus the per-batch hook run() calls. Raises AttributeError if the tree has no such hook."""
+    a = K(**analysis_kwargs(scn, sf, scn.get('step')))
+    for i, b in enumerate(cont.batches(batch_size=bs)):
+        if upto is not None and i >= upto:
+            break
+        a.process(b)
+        a._batch_loop_compute()
+    if final:
+        a._final_compute()
+    return a
+
+
+def _after_fault(scn, scared, att, rec, storage, sf, E, D, samples, pt, run_exc, faults, probes, pps, k, bs, K=None, scout=None, mk_cont=None):
     prop = 'C16'
     fk = list(faults)[0]
     violation = None
@@ -607,6 +645,8 @@ def _after_fault(scn, scared, att, rec, storage, sf, E, D, samples, pt, run_exc,
                     elif not compare.bitwise(att.results, ref.results):
                         violation = viol('result_differs_from_accepted_only', [prop, 'result_differs_from_accepted_only', kind, 'run:' + fkind, 'after_rest'],
                                          'remaining rows after failed run: maxdiff=%s' % compare.maxdiff(att.results, ref.results))
+                    elif scn.get('step') and scn['mode'] == 'attack' and K is not None:
+                        violation = _convergence_after_fault(scn, scared, att, K, sf, scout, mk_cont, samples, k, bs, expect_rows, probes, kind, fkind)
                 except Exception as e:
                     first = expect_rows == 0
                     violation = viol('valid_call_rejected_after_refusal', [prop, 'valid_call_rejected_after_refusal', kind, 'run:' + fkind, 'first' if first else 'later'],
@@ -616,6 +656,37 @@ def _after_fault(scn, scared, att, rec, storage, sf, E, D, samples, pt, run_exc,
     case = rng.digest([kind, scn['mode'], fkind, k, bs, len(samples)])
     return {'violation': violation, 'inconclusive': False, 'digest': rng.digest(storage.events), 'case': case, 'nontrivial': True, 'faults': faults,
             'probes': probes, 'sim_time': storage.seq}
+
+
+def _convergence_after_fault(scn, scared, att, K, sf, scout, mk_cont, samples, k, bs, expect_rows, probes, kind, fkind):
+    """The convergence trace is a 'later result' too: after the failed run and the run over the remaining rows it must be that of an attack
+    which went through the accepted batches only.  The accepted-only twin is driven through the public run-loop pieces; the model is first
+    calibrated against the fault-free scout (if this tree's run() cannot be modelled that way the oracle is skipped, never alarmed)."""
+    n = len(samples)
+    try:
+        cal = _manual_prefix(scn, scared, K, sf, mk_cont(0, n, 'cal'), bs, None, final=True)
+        ok = _same_ct(cal, scout)
+    except Exception:
+        ok = False
+    if not ok:
+        probes['convergence_twin_model_unfaithful'] = 1
+        return None
+    twin = _manual_prefix(scn, scared, K, sf, mk_cont(0, n, 'twin'), bs, k)
+    twin.run(mk_cont(expect_rows, n, 'twinrest'))
+    probes['convergence_twin_checked'] = 1
+    if not _same_ct(att, twin):
+        a, b = getattr(att, 'convergence_traces', None), getattr(twin, 'convergence_traces', None)
+        return viol('convergence_differs_from_accepted_only', ['C16', 'convergence_differs_from_accepted_only', kind, 'run:' + fkind],
+                    'after the failed run (batch %d of size %d refused) and a run over the remaining rows, convergence_traces has shape %s, the accepted-only twin %s; step %s' % (
+                        k, bs, None if a is None else a.shape, None if b is None else b.shape, scn['step']))
+    return None
+
+
+def _same_ct(x, y):
+    a, b = getattr(x, 'convergence_traces', None), getattr(y, 'convergence_traces', None)
+    if a is None or b is None:
+        return a is None and b is None
+    return compare.bitwise(a, b)
 
 
 def _execute_c08_template(scn, scared):
@@ -741,14 +812,14 @@ def _check_convergence(scn, scared, att, rec, sf, EE, DD, cols_after_run, probes
 
 # ----------------------------------------------------------------------------- C14
 
-C14_LISTS = ['range', 'shift', 'perm', 'gap', 'auto']
+C14_LISTS = ['range', 'shift', 'perm', 'gap', 'auto', 'permmid']
 
 
 def generate_c14(seed, tier):
     r = rng.stream(seed, 'workload')
     thorough = tier == 'thorough'
     k = r.randint(2, 6)
-    style = _w(r, [('range', 3), ('shift', 2), ('perm', 2), ('gap', 2), ('auto', 1.5)])
+    style = _w(r, [('range', 3), ('shift', 2), ('perm', 2), ('gap', 2), ('auto', 1.5), ('permmid', 1.2)])
     if style == 'range':
         classes = list(range(k))
     elif style == 'shift':
@@ -756,6 +827,13 @@ def generate_c14(seed, tier):
         classes = [c + s for c in range(k)]
     elif style == 'perm':
         classes = r.sample(range(k), k)
+    elif style == 'permmid':
+        # looks like range(k) from both ends (first class 0, last class k-1) but the middle is permuted
+        k = max(k, 4)
+        mid = list(range(1, k - 1))
+        while mid == list(range(1, k - 1)):
+            r.shuffle(mid)
+        classes = [0] + mid + [k - 1]
     elif style == 'gap':
         classes = sorted(r.sample(range(0, 3 * k), k))
         if r.random() < 0.5:
